@@ -5,7 +5,7 @@
    models of other files (Core, Shift, AddSub, Mul, Div, Bits, Pow), proved by their owners. *)
 From Bnum Require Import Base Prim.
 From Bnum.Model Require Import Digit Core Shift AddSub Mul Div Bits Pow NumTraits.
-From Bnum.Proofs Require Import NumTraitsZ NumTraitsDeps NumTraits.
+From Bnum.Proofs Require Import NumTraitsZ NumTraitsDeps NumTraitsDepsCheck NumTraits.
 
 (* ---------- div_floor / mod_floor / div_rem ---------- *)
 
@@ -233,3 +233,8 @@ Proof. vm_compute. repeat split; intro H; discriminate H. Qed.
 (* sqrt(2^128) = 2^64 through the Newton path *)
 Example C18_sqrt_newton_witness : TU_sqrt true 64 [0; 0; 1] = Some (Ret [0; 1; 0]).
 Proof. vm_compute. reflexivity. Qed.
+
+(* the premises (the deps_ records), restated as boolean checks, hold on every operand tuple of the configurations
+   (w, n) = (2,1), (2,2), (3,2), (2,3) in both build modes (kernel evaluation): they are not vacuous *)
+Example C18_premises_hold_on_small_configs : deps_check_all = true.
+Proof. exact deps_check_all_ok. Qed.
